@@ -681,7 +681,15 @@ def _handle_call(node: ast.Call, ctx: Context) -> sympy.Expr | None:
         if (expr := _handle_expr(i, ctx)) is None:
             return None
         model_args.append(expr)
-    _LOGGER.debug("Fn args: %s", model_args)
+    model_kwargs: dict[str, sympy.Expr] = {}
+    for kw in node.keywords:
+        if kw.arg is None:
+            msg = "Unpacking of keyword arguments not implemented"
+            raise NotImplementedError(msg)
+        if (expr := _handle_expr(kw.value, ctx)) is None:
+            return None
+        model_kwargs[kw.arg] = expr
+    _LOGGER.debug("Fn args: %s, %s", model_args, model_kwargs)
 
     match node.func:
         case ast.Name(id):
@@ -723,7 +731,21 @@ def _handle_call(node: ast.Call, ctx: Context) -> sympy.Expr | None:
         return None
 
     if (fn := KNOWN_FNS.get(py_fn)) is not None:
+        if model_kwargs:
+            msg = "Keyword arguments of known functions not implemented"
+            raise NotImplementedError(msg)
         return sympy.Float(fn(*model_args))  # type: ignore
+
+    # Bind keyword arguments to the parameters they name
+    fn_params = list(inspect.signature(py_fn).parameters)
+    for name in fn_params[len(model_args) :]:
+        if name not in model_kwargs:
+            msg = f"Missing argument {name}, default values are not supported"
+            raise ValueError(msg)
+        model_args.append(model_kwargs.pop(name))
+    if model_kwargs or len(model_args) != len(fn_params):
+        msg = f"Arguments do not match the parameters {fn_params}"
+        raise ValueError(msg)
 
     return fn_to_sympy(
         py_fn,
